@@ -14,6 +14,10 @@ const (
 	MaxCompiledWasmCodeSize = 1 * 1024 * 1024 // 1MB
 
 	MaximumOwasmGas = 8000000
+
+	// MaxSamplingTryCount bounds the SamplingTryCount parameter: every try is a full validator
+	// sampling run inside the request transaction, and no gas is charged for it.
+	MaxSamplingTryCount = 100
 )
 
 var DoNotModifyBytes = []byte(DoNotModify)
